@@ -54,8 +54,8 @@ def make_case(idx, tier):
     elif x < 0.12 and lines:
         # a line longer than the lim option (256 characters): laid out by the plain path, still one cell run per character width
         k = R.randrange(len(lines))
-        lines[k] = R.choice(['漢字', 'ab漢', '\tx字', 'éé']) * R.choice([2, 5]) + R.choice(['a', 'ab ', 'x字']) * R.choice([130, 200, 300])
-        keys = '%dG' % (k + 1) + R.choice(['10|', '5|', '9|j', '7|k', '300|', '$', '12|l']) + keys[:12]
+        lines[k] = R.choice(['漢字', 'ab漢', '\tx字', 'éé']) * R.choice([2, 5]) + R.choice(['a' * 2, 'ab ', 'x字']) * R.choice([130, 200, 300])      # (always more than 256 characters)
+        keys = '%dG' % (k + 1) + R.choice(['10|', '5|', '9|j', '7|k', '300|', '$', '12|l', '3|', '6|', '8|h']) + R.choice(['', '', 'l', 'h', keys[:6]])
     return {'lines': lines, 'keys': keys, 'rows': rows, 'idx': idx}
 
 
